@@ -51,7 +51,7 @@
  *   prefixa <c> <off> <len> <sa>          ZSTD_CCtx_refPrefix of a COPY placed at srcArena+sa (a following F with <sa>+<len> makes
  *                                         the prefix end exactly where the input starts)
  *   W <c> <off> <len> <span>              ZSTD_compress2 with the sticky parameters: once with a large capacity (size r0), then with
- *                                         every capacity r0 .. r0+span; prints "W off len r0 nerr ndiff firstcap firstsize"
+ *                                         every capacity r0 .. r0+span; prints "W off len r0 nerr ndiff firstcap firstsize nraw"
  *       udictc <level> <doff> <dlen>      (F api) ZSTD_compress_usingDict, the dictionary copied right in front of the input (<sa> >= <dlen>)
  *   P lines (trace on, streaming frames): after every input piece "P ctx piece consumedSrcSize inBuffPos inToCompress inBuffTarget streamStage"
  * Output: "F fid rc size hash rt nerr sc nblocks lastBlockEmpty [hex]"  (sc: 1 = e_end shortcut taken, -1 = buffered path, -2 = not a streaming frame)  (rc 0 ok, else "E <errorname>"), D / J lines, "E ..." for API errors.
@@ -453,20 +453,37 @@ int main(void) {
             r = ZSTD_CCtx_refPrefix(C[c], srcArena + sa, l); if (ZSTD_isError(r)) perr("prefixa", r);
             else { prefSet[c] = l > 0; prefOff[c] = o; prefLen[c] = l; }
         } else if (!strcmp(cmd, "W")) {
-            int c; size_t o, l, span, r0, k, nerr = 0, ndiff = 0, fcap = 0, fsize = 0; BYTE* ref;
+            /* ndiff = capacities whose output differs from the large-capacity output; nraw = those among them whose FIRST differing
+             * block is a raw block of the same regenerated size where the reference has a compressed block (the signature of the
+             * dstSize_tooSmall -> "not compressible" fallback of ZSTD_entropyCompressSeqStore) */
+            int c; size_t o, l, span, r0, k, nerr = 0, ndiff = 0, nraw = 0, fcap = 0, fsize = 0; BYTE* ref;
             if (fscanf(in, "%d %zu %zu %zu", &c, &o, &l, &span) != 4) return 2;
             need_arena(l + span + 4096); memcpy(srcArena, blob + o, l); curDictKind = 0; prefSet[c] = 0;
             r0 = ZSTD_compress2(C[c], dstArena, ZSTD_compressBound(l) + 4096, srcArena, l);
-            if (ZSTD_isError(r0)) { perr("W", r0); printf("W %zu %zu 0 1 0 0 0\n", o, l); continue; }
+            if (ZSTD_isError(r0)) { perr("W", r0); printf("W %zu %zu 0 1 0 0 0 0\n", o, l); continue; }
             ref = (BYTE*)malloc(r0 + 1); memcpy(ref, dstArena, r0);
             for (k = 0; k <= span; k++) {
                 size_t const r = ZSTD_compress2(C[c], dstArena, r0 + k, srcArena, l);
                 if (ZSTD_isError(r)) { nerr++; continue; }
-                if (r != r0 || memcmp(ref, dstArena, r0)) { if (!ndiff) { fcap = r0 + k; fsize = r; } ndiff++; }
+                if (r != r0 || memcmp(ref, dstArena, r0)) {
+                    size_t const h = ZSTD_frameHeaderSize(ref, r0); size_t pa = h, pb = h; int isRaw = 0;
+                    if (!ZSTD_isError(h) && r > h && memcmp(ref, dstArena, h) == 0) {
+                        while (pa + 3 <= r0 && pb + 3 <= r) {
+                            U32 const ha = MEM_readLE24(ref + pa), hb = MEM_readLE24(dstArena + pb);
+                            U32 const ta = (ha >> 1) & 3, tb = (hb >> 1) & 3, sza = ha >> 3, szb = hb >> 3;
+                            size_t const la = 3 + (ta == 1 ? 1 : sza), lb = 3 + (tb == 1 ? 1 : szb);
+                            if (la == lb && pa + la <= r0 && pb + lb <= r && memcmp(ref + pa, dstArena + pb, la) == 0) { pa += la; pb += lb; if (ha & 1) break; continue; }
+                            isRaw = (ta == 2 && tb == 0 && szb <= ZSTD_BLOCKSIZE_MAX);
+                            break;
+                        }
+                    }
+                    if (!ndiff) { fcap = r0 + k; fsize = r; }
+                    ndiff++; nraw += (size_t)isRaw;
+                }
                 if (!decode_ok(dstArena, r, srcArena, l)) { ndiff += 1000000; }
             }
             free(ref);
-            printf("W %zu %zu %zu %zu %zu %zu %zu\n", o, l, r0, nerr, ndiff, fcap, fsize);
+            printf("W %zu %zu %zu %zu %zu %zu %zu %zu\n", o, l, r0, nerr, ndiff, fcap, fsize, nraw);
         } else if (!strcmp(cmd, "F")) {
             int c, fid, hex; size_t off, len, sa, da, r = 0; char api[32]; BYTE *src, *dst; size_t dstCap;
             if (fscanf(in, "%d %d %zu %zu %zu %zu %d %31s", &c, &fid, &off, &len, &sa, &da, &hex, api) != 8) return 2;
